@@ -167,6 +167,7 @@ func (c *Collection) Update(id string, msg proto.Message, opts ...WriteOption) (
 		changeType = types.ChangeType_ADD
 		oldValue = nil
 	}
+	verifYield("Collection.Update:before-publish")
 	c.bus.Send(context.TODO(), &CollectionChange{
 		Id:         id,
 		ChangeTime: changeTime,
